@@ -19,7 +19,7 @@ type c03 struct{}
 func (c03) ID() string    { return "C03" }
 func (c03) Level() string { return "exploration" }
 func (c03) Rule() string {
-	return "grammar products, each complete within its domain: ports [IP:][HOST[-HOST]:]CONTAINER[-CONTAINER][/PROTO] (4 IPs x 5 host forms x 3 container forms x 4 protocols + bare integers; ranges starting at 15 (container, host) bases (quick: reduced IP / protocol forms off the first base; thorough: full product) incl. every decimal-width boundary 9|10 .. 9999|10000); volumes [SOURCE:]TARGET[:MODE,...] (9 sources x 3 targets x mode sets of <=2 from 8); devices SRC[:DST[:PERM]]; secrets/configs by name; build string; env_file / label_file string, list, long; depends_on and networks lists; extra_hosts and build.extra_hosts: every list spelling (= and :, 4 address forms incl. bracketed IPv6) against every mapping spelling (scalar and list value); extends string; healthcheck test string; external {name}; KEY[=VALUE] lists vs mappings (6 value kinds x 4 key shapes: plain, x- prefixed, dotted, mixed) at 8 service positions and on the labels of every resource kind; string-or-list at 6 positions; command/entrypoint strings over <=3 (thorough: 4) words from 10 word shapes (plain, single/double quoted, escaped blank, empty, words containing no-break space, ideographic space, vertical tab, form feed); durations and byte sizes against numeric literals; each short form loaded next to the reference long form written from the specification grammar and compared on the whole project; near misses must be errors. distinct = distinct short-form strings"
+	return "grammar products, each complete within its domain: ports [IP:][HOST[-HOST]:]CONTAINER[-CONTAINER][/PROTO] (4 IPs x 5 host forms x 3 container forms x 4 protocols + bare integers; ranges starting at 15 (container, host) bases (quick: reduced IP / protocol forms off the first base; thorough: full product) incl. every decimal-width boundary 9|10 .. 9999|10000); volumes [SOURCE:]TARGET[:MODE,...] (9 sources x 3 targets x mode sets of <=2 from 8); devices SRC[:DST[:PERM]]; secrets/configs by name; build string; env_file / label_file string, list, long; depends_on and networks lists; every short / long pair also as the later layer (override file, own attributes of an extending service) on top of an earlier layer that says more; extra_hosts and build.extra_hosts: every list spelling (= and :, 4 address forms incl. bracketed IPv6) against every mapping spelling (scalar and list value); extends string; healthcheck test string; external {name}; KEY[=VALUE] lists vs mappings (6 value kinds x 4 key shapes: plain, x- prefixed, dotted, mixed) at 8 service positions and on the labels of every resource kind; string-or-list at 6 positions; command/entrypoint strings over <=3 (thorough: 4) words from 10 word shapes (plain, single/double quoted, escaped blank, empty, words containing no-break space, ideographic space, vertical tab, form feed); durations and byte sizes against numeric literals; each short form loaded next to the reference long form written from the specification grammar and compared on the whole project; near misses must be errors. distinct = distinct short-form strings"
 }
 func (c03) Assumptions() []string {
 	return []string{
@@ -48,6 +48,10 @@ type c03case struct {
 	over  string // optional second file (override) applied on top of both forms
 	top   string // extra top-level YAML for the short doc (external etc.)
 	topL  string
+	// under: an earlier layer for service s; the short / long form then arrives as the later layer, through an override
+	// file (via "override") or as the own attributes of s extending a base service that carries `under` (via "extends")
+	under string
+	via   string
 }
 
 func c03docs(cs c03case) (string, string) {
@@ -76,6 +80,20 @@ func c03check(cs c03case) core.Outcome {
 	sd, ld := c03docs(cs)
 	load := func(doc string) (*types.Project, error) {
 		s := &Scn{Files: map[string]string{"compose.yaml": doc, "s": "x", "e.env": "E=1\n", "l.labels": "l=1\n"}, Main: []string{"compose.yaml"}}
+		if cs.under != "" {
+			body := cs.short
+			if doc == ld {
+				body = cs.long
+			}
+			head := "services:\n  t: {image: t}\n  u: {image: u}\n"
+			if cs.via == "extends" {
+				s.Files["compose.yaml"] = head + "  b:\n    image: i\n" + cs.under + "  s:\n    extends: {service: b}\n" + body + c03skeleton
+			} else {
+				s.Files["compose.yaml"] = head + "  s:\n    image: i\n" + cs.under + c03skeleton
+				s.Files["over.yaml"] = "services:\n  s:\n" + body
+				s.Main = append(s.Main, "over.yaml")
+			}
+		}
 		if cs.over != "" {
 			s.Files["over.yaml"] = "services:\n  s:\n" + cs.over
 			s.Main = append(s.Main, "over.yaml")
@@ -540,6 +558,28 @@ func c03overrides() []c03case {
 	add("command", "    command: a b\n", "    command: [a, b]\n", "    command: c\n")
 	add("devices", "    devices: [\"/dev/a:/dev/b\"]\n", "    devices:\n      - {source: /dev/a, target: /dev/b, permissions: rwm}\n", "    devices: [\"/dev/c:/dev/b:r\"]\n")
 	add("ulimits", "    ulimits: {nofile: 5}\n", "    ulimits: {nofile: 5}\n", "    ulimits: {nofile: {soft: 1, hard: 2}}\n")
+	// the other way round: the short / long form is the LATER layer, on top of an earlier layer that says more
+	under := func(id, earlier, short, long string) {
+		for _, via := range []string{"override", "extends"} {
+			out = append(out, c03case{id: "under-" + via + "/" + id, short: short, long: long, under: earlier, via: via, kind: "eq"})
+		}
+	}
+	under("build", "    build: {context: ./base, dockerfile: D1, target: t1, args: {A: \"1\"}}\n", "    build: ./other\n", "    build: {context: ./other}\n")
+	under("depends_on", "    depends_on:\n      t: {condition: service_healthy, restart: true}\n", "    depends_on: [t, u]\n",
+		"    depends_on:\n      t: {condition: service_started, required: true}\n      u: {condition: service_started, required: true}\n")
+	under("networks", "    networks:\n      n1: {aliases: [a1]}\n", "    networks: [n1, n2]\n", "    networks:\n      n1:\n      n2:\n")
+	under("environment", "    environment: {A: \"0\", C: \"9\"}\n", "    environment: [A=1, B=2]\n", "    environment: {A: \"1\", B: \"2\"}\n")
+	under("labels", "    labels: [a=0, c=9]\n", "    labels: [a=1, b=2]\n", "    labels: {a: \"1\", b: \"2\"}\n")
+	under("ports", "    ports: [\"8000:3000\"]\n", "    ports: [\"8000:3000\", \"9000:4000/udp\"]\n",
+		"    ports:\n      - {mode: ingress, target: 3000, published: \"8000\", protocol: tcp}\n      - {mode: ingress, target: 4000, published: \"9000\", protocol: udp}\n")
+	under("volumes", "    volumes: [\"named:/data\"]\n", "    volumes: [\"./src:/data:ro\"]\n",
+		"    volumes:\n      - {type: bind, source: ./src, target: /data, read_only: true, bind: {create_host_path: true}}\n")
+	under("env_file", "    env_file:\n      - {path: ./e.env, required: false}\n", "    env_file: ./e.env\n", "    env_file:\n      - {path: ./e.env, required: true}\n")
+	under("extra_hosts", "    extra_hosts: {h1: 9.9.9.9}\n", "    extra_hosts: [\"h1=1.1.1.1\", \"h2=2.2.2.2\"]\n", "    extra_hosts: {h1: 1.1.1.1, h2: 2.2.2.2}\n")
+	under("dns", "    dns: [9.9.9.9]\n", "    dns: 1.1.1.1\n", "    dns: [1.1.1.1]\n")
+	under("command", "    command: [x, y]\n", "    command: a b\n", "    command: [a, b]\n")
+	under("devices", "    devices: [\"/dev/x:/dev/b\"]\n", "    devices: [\"/dev/a:/dev/b\"]\n", "    devices:\n      - {source: /dev/a, target: /dev/b, permissions: rwm}\n")
+	under("secrets", "    secrets:\n      - {source: sec, target: /run/secrets/sec, mode: 0400}\n", "    secrets: [sec]\n", "    secrets:\n      - {source: sec, target: /run/secrets/sec}\n")
 	return out
 }
 
